@@ -15,7 +15,14 @@ var NotApplicableReasons = map[string]string{}
 func Manifest() map[string]any {
 	var checks []map[string]any
 	claimed := map[string]bool{}
+	ready := map[string]bool{}
+	for _, id := range readLines(filepath.Join(VerifRoot(), "ready.txt")) {
+		ready[id] = true
+	}
 	for _, p := range All() {
+		if len(ready) > 0 && !ready[p.ID] {
+			continue // registered but not yet calibrated: not claimed
+		}
 		claimed[p.ID] = true
 		checks = append(checks, map[string]any{
 			"property_id":         p.ID,
